@@ -413,6 +413,13 @@ br_ssl_engine_set_buffers_bidi(br_ssl_engine_context *rc,
 	rc->record_type_in = 0;
 	rc->version_out = 0;
 	rc->record_type_out = 0;
+
+	/*
+	 * The record protection must be defined even if the buffers are
+	 * refused below: the reset functions go on after this call, and
+	 * work on the (failed) context.
+	 */
+	rc->out.vtable = &br_sslrec_out_clear_vtable;
 	if (ibuf == NULL) {
 		if (rc->ibuf == NULL) {
 			br_ssl_engine_fail(rc, BR_ERR_BAD_PARAM);
@@ -470,7 +477,6 @@ br_ssl_engine_set_buffers_bidi(br_ssl_engine_context *rc,
 		rc->log_max_frag_len = u;
 		rc->peer_log_max_frag_len = 0;
 	}
-	rc->out.vtable = &br_sslrec_out_clear_vtable;
 	make_ready_in(rc);
 	make_ready_out(rc);
 }
